@@ -51,7 +51,10 @@ MANIFEST = dict(
           "PCfg.voidAll/voidTags, driver op tripc); element names a refactoring might add to a cdata set (iframe, xmp, noembed, "
           "noframes, plaintext, noscript, textarea, title, template) with entity look-alikes and tag-like text inside; a bytes "
           "stream (Python oracle only): encode(enc) for eleven encodings, the bytes parsed again with from_encoding=enc or via the "
-          "rewritten <meta charset>, same tree demanded. THROUGH THE TOKENIZER MODEL (C04): on the decidable class RenderWritable "
+          "rewritten <meta charset>, same tree demanded; the live entity tables exhaustively on every run (every key of "
+          "CHARACTER_TO_HTML_ENTITY, every regex alternative, every html.entities.codepoint2name character, every HTML5 value: alone "
+          "and in context, as text and attribute value, under minimal/html/html5), each failure confirmed on a one-element "
+          "document that is the replay. THROUGH THE TOKENIZER MODEL (C04): on the decidable class RenderWritable "
           "the text the 'minimal' formatter writes is character for character a text C04's writer writes under explicit choices "
           "(render_is_written), hence the code-mirror of CPython's tokenizer makes of it the callbacks of the written document "
           "(rendered_text_callbacks) and adapter + builder give the normal form (reparse_roundtrip_tokenized, "
@@ -484,7 +487,7 @@ def make_node(soup, spec, xml):
     _, mode, name, prefix, attrs, cbe, kids = spec
     ad = {k: py_value(v) for k, v in attrs}
     if mode == "new_tag":
-        t = soup.new_tag(name, prefix=prefix, attrs={k: v for k, v in ad.items() if v is not None})
+        t = soup.new_tag(name, nsprefix=prefix, attrs={k: v for k, v in ad.items() if v is not None})
     else:
         t = e["Tag"](None, None, name, None, prefix, {k: v for k, v in ad.items() if v is not None} if mode == "ctor" else None,
                      is_xml=xml, can_be_empty_element=cbe)
@@ -1823,6 +1826,85 @@ def stream_bytes(ctx, n):
         ctx.case(None)
 
 
+def entity_table_strings():
+    """every character / character sequence the entity tables speak of: keys of CHARACTER_TO_HTML_ENTITY and of
+    CHARACTER_TO_XML_ENTITY, every alternative the two compiled regexes can match, every HTML 4 entity character
+    (html.entities.codepoint2name), every value of the HTML5 table (html.entities.html5) and of HTML_ENTITY_TO_CHARACTER"""
+    import html.entities as he
+    e = E()
+    ES = e["ES"]
+    out = set(ES.CHARACTER_TO_HTML_ENTITY) | set(ES.CHARACTER_TO_XML_ENTITY) | set(ES.HTML_ENTITY_TO_CHARACTER.values())
+    out |= {chr(cp) for cp in he.codepoint2name} | set(he.html5.values())
+    for rx in (ES.CHARACTER_TO_HTML_ENTITY_RE, ES.CHARACTER_TO_HTML_ENTITY_WITH_AMPERSAND_RE):
+        body = rx.pattern
+        if body.startswith("(") and body.endswith(")"):
+            body = body[1:-1]
+        for alt in body.split("|"):
+            key = re.sub(r"\(\?!\[.*?\]\)$", "", alt)
+            if key and "\\" not in key:
+                out.add(key)
+    return sorted(x for x in out if x)
+
+
+def stream_entity_table(ctx):
+    """exhaustive over the live entity tables, every run: each character / sequence alone and in context, as text and as an
+    attribute value, under 'minimal' and 'html' (and 'html5' as an extra), rendered, parsed again, rendered again — the round trip
+    of the property on exactly the inputs a change of those tables affects"""
+    e = E()
+    strings = entity_table_strings()
+    ctx.count("entity-table:strings", len(strings))
+    chunk = 150
+    for f in ("minimal", "html", "html5"):
+        for lo in range(0, len(strings), chunk):
+            part = strings[lo:lo + chunk]
+            soup = parse("")
+            texts = []
+            for s_ in part:
+                for t in (s_, "x" + s_ + "y;", s_ + s_):
+                    p_ = soup.new_tag("p", attrs={"title": t})
+                    p_.append(t)
+                    soup.append(p_)
+                    texts.append(t)
+            rendered = soup.decode(formatter=f)
+            back = parse(rendered)
+            again = back.decode(formatter=f)
+            ps = back.find_all("p", recursive=False)
+            ok = len(ps) == len(texts) and parse(again).decode(formatter=f) == again
+            bad = []
+            if len(ps) == len(texts):
+                for t, p2 in zip(texts, ps):
+                    got_text = "".join(str.__str__(c) for c in p2.contents) if all(isinstance(c, e["NS"]) for c in p2.contents) else None
+                    if got_text != o_ws(t, False) or p2.get("title") != t:
+                        bad.append(t)
+            elif not ok:
+                bad = list(texts)
+            if not ok and not bad:
+                bad = list(texts)
+            ctx.count(f"entity-table:{f}:checked", len(texts))
+            # confirm each suspect alone, so that the replay is a one-character document
+            for t in bad:
+                recipe = {"kind": "api", "xml": False, "kids": [["T", "new_tag", "p", None, [["title", t]], False,
+                                                                 [["S", "NavigableString", t]]]], "ops": []}
+                one = build(recipe)
+                r1 = one.decode(formatter=f)
+                b1 = parse(r1)
+                p1 = b1.find("p")
+                t1 = None if p1 is None else "".join(str.__str__(c) for c in p1.contents)
+                a1 = None if p1 is None else p1.get("title")
+                r2 = b1.decode(formatter=f)
+                r3 = parse(r2).decode(formatter=f)
+                if t1 != o_ws(t, False) or a1 != t or r3 != r2:
+                    ctx.violation(f"entity table: {ascii(t)} does not survive render -> parse under formatter {f!r}"
+                                  + ("" if f != "html5" else " (html5 is outside the property's quantifier: reported all the same)"),
+                                  case={"recipe": recipe, "element": 0, "formatter": f, "op": "roundtrip"},
+                                  expected=f"text {ascii(o_ws(t, False))} and title {ascii(t)}; third rendering = second",
+                                  observed=f"rendered {ascii(r1)}; text {ascii(t1)}, title {ascii(a1)}; second rendering {ascii(r2)}; third {ascii(r3)}",
+                                  stream="entity-table")
+    ctx.case(None)
+    ctx.exhaustive_parts.append(f"{len(strings)} characters/sequences of the live entity tables (CHARACTER_TO_HTML_ENTITY, regex alternatives, "
+                                "html.entities.codepoint2name, html5 values) x 3 contexts x text and attribute x minimal/html/html5: round trip")
+
+
 def stream_table(ctx, batch):
     """exhaustive over the generated tables: every string class x every parent kind, under every formatter of both
     registries (render_checks runs all of them), both flavours — so a changed PREFIX/SUFFIX/registry entry that breaks a
@@ -1870,27 +1952,28 @@ def run(ctx: Ctx):
     stream_corpus(ctx, batch)
     stream_small(ctx, batch)
     stream_table(ctx, batch)
-    stream_configs(ctx, batch, ctx.n(400, 5000))
+    stream_entity_table(ctx)
+    stream_configs(ctx, batch, ctx.n(330, 5000))
     stream_bytes(ctx, ctx.n(250, 3000))
-    stream_formatter_args(ctx, batch, ctx.n(400, 4000))
+    stream_formatter_args(ctx, batch, ctx.n(330, 4000))
     stream_string_output_ready(ctx, batch, ctx.n(250, 2500))
     stream_doctype_ids(ctx, batch, ctx.n(300, 3000))
     # (i) parsed documents
-    n = ctx.n(1700, 18000)
+    n = ctx.n(1300, 18000)
     for i in range(n):
         r = ctx.rng("parsed", i)
         check_tree(ctx, batch, {"kind": "parse", "markup": gen_markup(r)}, "parsed", True, r=r)
-    n = ctx.n(600, 6000)
+    n = ctx.n(500, 6000)
     for i in range(n):
         r = ctx.rng("malformed", i)
         check_tree(ctx, batch, {"kind": "parse", "markup": gen_markup(r, malformed=True)}, "malformed", True, r=r)
     # (ii) API construction / edit histories, representable content
-    n = ctx.n(2100, 24000)
+    n = ctx.n(1600, 24000)
     for i in range(n):
         r = ctx.rng("api", i)
         check_tree(ctx, batch, gen_api_recipe(r, 0.0), "api", False, r=r)
     # (iii) content outside Representable: rendered (pure correspondence), re-parse outcome recorded
-    n = ctx.n(800, 8000)
+    n = ctx.n(650, 8000)
     for i in range(n):
         r = ctx.rng("hostile", i)
         check_tree(ctx, batch, gen_api_recipe(r, 0.25), "hostile", False, r=r)
